@@ -16,6 +16,9 @@ var c04Table = map[byte]refmodel.Behaviour{
 	'p': {},
 	'n': {refmodel.SNext},
 	'd': {refmodel.SNext, refmodel.SNext},
+	// records an error (for the OnError hook), then goes on like 'p' / 'n'
+	'e': {refmodel.SAddErr},
+	'f': {refmodel.SAddErr, refmodel.SNext},
 }
 
 type c04Case struct {
@@ -82,6 +85,16 @@ func c04Gen(tier string, emit func(c04Case)) {
 			for _, via := range chainResVias {
 				vectors("pn", n, func(b string) { push(chainShape{N: n, Split: sp, Via: via, Beh: b}) })
 			}
+		}
+	}
+	// handlers that record errors, on routers with an OnError hook (which must not change what the chain does)
+	for n := 1; n <= 4; n++ {
+		for _, sp := range splitsOf(n - 1) {
+			vectors("pnef", n, func(b string) {
+				if strings.ContainsAny(b, "ef") {
+					push(chainShape{N: n, Split: sp, Via: viaFor(sp), Beh: b, Hooks: "E"})
+				}
+			})
 		}
 	}
 	// the request reaches the measured route through another route's forwarding middleware (no global middleware)
